@@ -325,8 +325,13 @@ func regexpNext(sb *strings.Builder, sl *stringLexer, mode Mode) error {
 				bsb.WriteByte('-')
 				start := sl.last()
 				end := sl.peekNext()
+				closing := end == ']' // the dash is a literal, as in [a-]
+				if rest := sl.peekRest(); end == '\\' && len(rest) > 1 {
+					// The range ends at the escaped character.
+					end, _ = utf8.DecodeRuneInString(rest[1:])
+				}
 				// TODO: what about overlapping ranges, like: [a--z]
-				if end != ']' && start > end && deferredErr == nil {
+				if !closing && start > end && deferredErr == nil {
 					deferredErr = &SyntaxError{msg: fmt.Sprintf("invalid range: %c-%c", start, end)}
 				}
 			case ']':
